@@ -5,6 +5,7 @@ import (
 	"io"
 	"strings"
 	"sync"
+	"sync/atomic"
 	"time"
 
 	"github.com/tonistiigi/fsutil"
@@ -16,7 +17,8 @@ import (
 // FS.Model.AccEvents:
 //
 //	Out p       recorded when the endpoint CALLS SendMsg(p) (dropped again if the call fails)
-//	In p        recorded when RecvMsg RETURNS p to the endpoint
+//	In p        recorded when RecvMsg RETURNS to the endpoint; p is decoded from the frame into a
+//	            fresh packet (what the peer sent), not read off the endpoint's packet object
 //	InEof       RecvMsg returned io.EOF
 //	Fault       a stream operation failed otherwise / an injected FS fault fired / ctx cancelled
 //	Progress    progress callback
@@ -112,24 +114,122 @@ func c0607DeepClone(p *types.Packet) *types.Packet {
 	return q
 }
 
+// A hold keeps one SendMsg of the endpoint under test in flight (it is not forwarded to the
+// transport yet) until another SendMsg ENTERS on the same stream - which a conforming endpoint
+// never does: fsutil.Stream is not safe for concurrent SendMsg, both endpoints serialise their
+// writers - or until the endpoint has been quiet for c0607HoldQuiet.  Which send is held is
+// chosen by what is sent, not by a schedule-dependent index:
+//
+//	kind 0: the STAT packet number N (0-based, the end marker included)
+//	kind 1: the first DATA packet of id N
+//	kind 2: the FIN packet
+//	kind 3: the REQ packet number N (0-based)
+type c0607Hold struct{ Kind, N int }
+
+const c0607HoldQuiet = 40 * time.Millisecond
+
 type tapStream struct {
 	inner fsutil.Stream
 	tap   *Tap
-	// the inner endpoint reports each decoded packet itself (c0607BufEndpoint.OnDecoded: at the
-	// moment Unmarshal has returned, before the transport reuses its receive buffer)
+	// frameOf returns the bytes of the frame the inner endpoint has just decoded (transport 4:
+	// read at the byte pipe).  The In event is decoded from them into a FRESH packet: the trace
+	// shows what the peer sent, whatever the endpoint's own (possibly reused, possibly not
+	// reset) packet object makes of it.
+	frameOf func() []byte
+	// the inner endpoint reports each frame itself (c0607BufEndpoint.OnDecoded: at the moment
+	// Unmarshal has returned, before the transport reuses its receive buffer)
 	innerRecordsIn bool
+
+	inSend, inRecv             int32
+	sendOverlaps, recvOverlaps int32 // calls that entered while another one of the same kind was in flight
+	holds                      []c0607Hold
+	hmu                        sync.Mutex
+	nStat, nReq                int
+	dataSeen                   map[uint32]bool
+	entered                    chan struct{}
+	stop                       chan struct{}
+	stopOnce                   sync.Once
+	lastRecv                   int64 // UnixNano of the latest RecvMsg return
 }
 
 var _ fsutil.Stream = &tapStream{}
 
 func (s *tapStream) Context() context.Context { return s.inner.Context() }
 
+// Stop ends every hold (tear-down of the case).
+func (s *tapStream) Stop() { s.stopOnce.Do(func() { close(s.stop) }) }
+
+func (s *tapStream) Overlaps() (int, int) {
+	return int(atomic.LoadInt32(&s.sendOverlaps)), int(atomic.LoadInt32(&s.recvOverlaps))
+}
+
+func (s *tapStream) held(p *types.Packet) bool {
+	if len(s.holds) == 0 {
+		return false
+	}
+	s.hmu.Lock()
+	defer s.hmu.Unlock()
+	kind, n := -1, 0
+	switch p.Type {
+	case types.PACKET_STAT:
+		kind, n = 0, s.nStat
+		s.nStat++
+	case types.PACKET_DATA:
+		if !s.dataSeen[p.ID] {
+			s.dataSeen[p.ID] = true
+			kind, n = 1, int(p.ID)
+		}
+	case types.PACKET_FIN:
+		kind = 2
+	case types.PACKET_REQ:
+		kind, n = 3, s.nReq
+		s.nReq++
+	}
+	for _, h := range s.holds {
+		if h.Kind == kind && (kind == 2 || h.N == n) {
+			return true
+		}
+	}
+	return false
+}
+
+func (s *tapStream) hold() {
+	start := time.Now()
+	for {
+		select {
+		case <-s.entered:
+			return
+		case <-s.stop:
+			return
+		case <-time.After(4 * time.Millisecond):
+			ref := start
+			if lr := time.Unix(0, atomic.LoadInt64(&s.lastRecv)); lr.After(ref) {
+				ref = lr
+			}
+			if time.Since(ref) > c0607HoldQuiet || time.Since(start) > time.Second {
+				return
+			}
+		}
+	}
+}
+
 func (s *tapStream) SendMsg(m interface{}) error {
+	if atomic.AddInt32(&s.inSend, 1) > 1 {
+		atomic.AddInt32(&s.sendOverlaps, 1)
+		select {
+		case s.entered <- struct{}{}:
+		default:
+		}
+	}
+	defer atomic.AddInt32(&s.inSend, -1)
 	p, ok := m.(*types.Packet)
 	if !ok {
 		return s.inner.SendMsg(m)
 	}
 	i := s.tap.add(tapEvent{kind: 0, pkt: c0607DeepClone(p)})
+	if s.held(p) {
+		s.hold()
+	}
 	err := s.inner.SendMsg(m)
 	if err != nil {
 		s.tap.drop(i)
@@ -138,12 +238,27 @@ func (s *tapStream) SendMsg(m interface{}) error {
 	return err
 }
 
+// recordIn decodes the frame into a fresh packet (a frame of length 0 is the empty STAT).
+func (s *tapStream) recordIn(frame []byte) {
+	q := &types.Packet{}
+	if err := q.UnmarshalVT(append([]byte(nil), frame...)); err != nil {
+		s.tap.Fault()
+		return
+	}
+	s.tap.add(tapEvent{kind: 1, pkt: q})
+}
+
 func (s *tapStream) RecvMsg(m interface{}) error {
+	if atomic.AddInt32(&s.inRecv, 1) > 1 {
+		atomic.AddInt32(&s.recvOverlaps, 1)
+	}
+	defer atomic.AddInt32(&s.inRecv, -1)
 	err := s.inner.RecvMsg(m)
+	atomic.StoreInt64(&s.lastRecv, time.Now().UnixNano())
 	switch {
 	case err == nil:
-		if p, ok := m.(*types.Packet); ok && !s.innerRecordsIn {
-			s.tap.add(tapEvent{kind: 1, pkt: c0607DeepClone(p)})
+		if !s.innerRecordsIn {
+			s.recordIn(s.frameOf())
 		}
 	case err == io.EOF:
 		s.tap.add(tapEvent{kind: 2})
